@@ -10,7 +10,8 @@ import util
 import c13_lib as L
 
 ID = 'C13'
-LEAN_MODULES = ['Pfst.Props.C13', 'Pfst.Props.C13Options', 'Pfst.Props.C13Fallback', 'Pfst.Props.C13Params']
+LEAN_MODULES = ['Pfst.Props.C13', 'Pfst.Props.C13Options', 'Pfst.Props.C13Fallback', 'Pfst.Props.C13Params',
+                'Pfst.Props.C13Foreign']
 LEAN_DEPS = ['Pfst.Reconcile', 'Pfst.ReconcileLemmas']
 THEOREMS = [
     'Pfst.C13.frame', 'Pfst.C13.fallback_overrides', 'Pfst.C13.foreign_ok_correct', 'Pfst.C13.fields_scalar_correct',
@@ -26,6 +27,7 @@ THEOREMS = [
     'Pfst.C13.battery_caught', 'Pfst.C13.battery_retried', 'Pfst.C13.fallback_total', 'Pfst.C13.fallback_kind_independent',
     'Pfst.C13.recNode_is_fallbackStep',
     # the parameter defaults of Reconcile.__init__ (Pfst/Gen/ReconcileParams.lean)
+    'Pfst.C13.foreign_run_needs_verified', 'Pfst.C13.foreign_run_unverified_falls_back', 'Pfst.C13.foreign_unverified_is_ast_put',
     'Pfst.C13.params_lattice_complete', 'Pfst.C13.omitted_gets_default', 'Pfst.C13.given_is_kept', 'Pfst.C13.param_independent',
 ]
 RULE = ('corpus programs (snippets covering every node type, generated programs, layout / comment / parenthesis variants, '
@@ -42,6 +44,9 @@ RULE = ('corpus programs (snippets covering every node type, generated programs,
         'reconcile() on an edited AST that ast.unparse accepts is a failure (raised:<Type>). The edit kinds include scalar edits whose '
         'direct put is refused (ImportFrom module/level, keyword.arg <-> None, Starred <-> plain Call argument, alias.asname, '
         'ExceptHandler.name), which force the retry-at-parent fallback. '
+        'FOREIGN-RUN FAMILY (every run): runs (length 1-3, start / middle / end) of nodes of ANOTHER marked tree whose list the user '
+        'reversed / shortened / lengthened / rotated there (pure AST) before splicing them into statement bodies, List / Tuple / Set '
+        'elts, Dict pairs (slice-capable) and Call args, decorators, MatchSequence patterns (one by one): 405 scripts. '
         'DICT FAMILY (every run): fixed Dicts and a MatchMapping whose keys and values / patterns are edited INDEPENDENTLY (swap or '
         'rotate values only, keys only, key of one entry with the value of another from the same Dict, from a second in-tree Dict, from a '
         'Dict of another tree, with ** entries). PARAMETERS: a slice of the scripts is re-run with every combination of reconcile()\'s '
@@ -237,8 +242,77 @@ def _mm(a):
     return a.body[0].cases[0].pattern
 
 
+# ---- deterministic family: runs of nodes of ANOTHER marked tree whose list the user edited there before splicing --------------
+
+FOREIGN_KINDS = {
+    # kind: (marked source, other tree's source, accessor of the (list of) lists in a Module AST)
+    'stmts': ('a = 1  # one\nb = 2\n', 's0 = 0  # c0\ns1 = 1\ns2 = 2  # c2\ns3 = 3\ns4 = 4  # c4\n', lambda m: [m.body]),
+    'fbody': ('def f():\n    a = 1  # one\n    b = 2\n', 'def g():\n    s0 = 0  # c0\n    s1 = 1\n    s2 = 2\n    s3 = 3  # c3\n    s4 = 4\n',
+              lambda m: [m.body[0].body]),
+    'list': ('x = [0, 1]', 'y = [10,  11, 12 ,  13, 14]', lambda m: [m.body[0].value.elts]),
+    'tuple': ('x = (0, 1)', 'y = (20, 21,  22, 23 , 24)', lambda m: [m.body[0].value.elts]),
+    'set': ('x = {0, 1}', 'y = {30,  31, 32, 33 , 34}', lambda m: [m.body[0].value.elts]),
+    'dict': ('x = {p: 0, q: 1}', 'y = {k0: v0, k1:  v1, k2: v2 , k3: v3, k4: v4}',
+             lambda m: [m.body[0].value.keys, m.body[0].value.values]),
+    'args': ('x = f(0, 1, 2)', 'y = g(40, 41, 42, 43, 44)', lambda m: [m.body[0].value.args]),            # plain list: replaced in place
+    'decos': ('@d0\n@d1\n@d2\ndef f(): pass', '@e0\n@e1\n@e2\n@e3\n@e4\ndef g(): pass', lambda m: [m.body[0].decorator_list]),
+    'mseq': ('match m:\n    case [0, 1, 2]:\n        pass', 'match n:\n    case [50, 51, 52, 53, 54]:\n        pass',
+             lambda m: [m.body[0].cases[0].pattern.patterns]),
+}
+FOREIGN_INPLACE = ('args', 'decos', 'mseq')      # lists reconcile handles one by one (same length required): elements are replaced
+
+
+def _foreign_edits():
+    def new_like(x):
+        if isinstance(x, ast.stmt):
+            return ast.Assign([ast.Name('fresh', ast.Store())], ast.Constant(99), lineno=1)
+        if isinstance(x, ast.pattern):
+            return ast.MatchValue(ast.Constant(99))
+        return ast.Name('fresh', ast.Load())
+
+    return {
+        'reverse': lambda l: l.reverse(),
+        'delfirst': lambda l: l.__delitem__(0),
+        'insfront': lambda l: l.insert(0, new_like(l[0])),
+        'rotate': lambda l: l.append(l.pop(0)),
+        'swapends': lambda l: l.__setitem__(slice(None), [l[-1]] + l[1:-1] + [l[0]]),
+    }
+
+
+def _foreign_case(kind, edit, n, pos):
+    msrc, osrc, acc = FOREIGN_KINDS[kind]
+
+    def fn(a, FST):
+        o = FST(osrc, 'exec')
+        olists = acc(o.a)
+        for l in olists:
+            _foreign_edits()[edit](l)              # the user edits the OTHER tree's list (pure AST) ...
+        ln = len(olists[0])
+        i = 0 if pos == 'start' else ln - n if pos == 'end' else max(0, (ln - n) // 2)
+        runs = [l[i:i + n] for l in olists]        # ... and takes a run of it
+        if any(x is None or not hasattr(x, 'f') for r in runs for x in r):
+            runs = [[x for x in r] for r in runs]
+        tl = acc(a)
+        if kind in FOREIGN_INPLACE:
+            for l, r in zip(tl, runs):
+                l[0:len(r)] = r[:len(l)]
+        else:
+            at = 1 if pos != 'end' else len(tl[0])
+            for l, r in zip(tl, runs):
+                l[at:at] = r
+        return o
+
+    return (msrc, fn, {'stmts': 'Module.body', 'fbody': 'FunctionDef.body', 'list': 'List.elts', 'tuple': 'Tuple.elts', 'set': 'Set.elts',
+                       'dict': 'Dict.dict', 'args': 'Call.args', 'decos': 'FunctionDef.decorator_list', 'mseq': 'MatchSequence.patterns'}[kind])
+
+
 def _family():
     fam = {}
+    for kind in FOREIGN_KINDS:
+        for edit in _foreign_edits():
+            for n in (1, 2, 3):
+                for pos in ('start', 'middle', 'end'):
+                    fam[f'foreign_{kind}_{edit}_{n}{pos}'] = _foreign_case(kind, edit, n, pos)
     for i, src in enumerate(DICT_SRCS):
         for name, fn in _dict_ops().items():
             fam[f'dict{i}_{name}'] = (src, fn, 'Dict.dict')
@@ -709,7 +783,7 @@ def _judge(ctx, results, name='reconcile trace vs Pfst.Reconcile.reconcile', sea
                 ctx.corr_disagreements.append({'corr': name, 'key': key, 'model': m})
             continue
         mops = [L.canon_model_op(op, R['reps']) for op in m['ops']]
-        msrcs = [op[2] if op[1] == 'put' else None for op in m['ops']]
+        msrcs = [op[2] if op[1] == 'put' else op[4] if op[1] == 'slice' else None for op in m['ops']]
         real = R.get('real', [])
         ctx.count(key, bool(mops))
         if m.get('fail'):
